@@ -20,6 +20,13 @@ def gen(rng, tier):
     n = {"quick": 110, "thorough": 500, "search": 200}[tier]
     from fractions import Fraction as F
     out = []
+    # warm-up: every solver and representation first sees a ONE-state problem (see props/C02.py)
+    for alg in ("ip", "wit", "ls", "pbvi", "perseus", "qmdp"):
+        for repr_ in ("dense", "sparse", "generic"):
+            m = gen_pomdp(rng, 1, 2, 2, gammas=(F(1, 2),))
+            minr = min(min(row) for row in m["R"])
+            bs = gen_beliefs(rng, 1, 1)
+            out.append("plan %s %s 2 3 %s %d %s %d %s" % (alg, repr_, Qs([minr]), rng.randrange(1 << 30), fmt_pomdp(m), len(bs), " ".join(Qs(b) for b in bs)))
     for k in range(n):
         S = rng.choice([2, 2, 3, 3]); A = rng.choice([1, 2, 2, 3]); O = rng.choice([1, 2, 2, 3, 4])
         m = gen_pomdp(rng, S, A, O, gammas=(F(1, 2), F(3, 4), F(3, 4), F(1)))
